@@ -716,8 +716,61 @@ theorem serial_fair (progs : List (Program L A I O)) (g : Nat) :
   simp only [ofList, Nat.sub_zero, List.getD_eq_getElem?_getD, List.getElem?_map]
   cases progs[g]? <;> simp
 
-/-- a finished system stays finished, and every longer schedule is still fair: turns only grow -/
+/-- turns only grow: every extension of a fair schedule is fair -/
 theorem turns_append (g : Nat) (s1 s2 : Sched) : turns g (s1 ++ s2) = turns g s1 + turns g s2 := by
   simp [turns, List.countP_append]
+
+/-- the `N`-goroutine form: programs given as a list, any number of them -/
+theorem noninterference_N (sc : Scratch S A I O) (hc : ResetContract sc) (objs : List (Nat × S)) (l0 : Nat → L)
+    (progs : List (Program L A I O)) (hd : ∀ p ∈ progs, disciplined p = true) (sched : Sched) (g : Nat) (hg : g < progs.length) :
+    result (run sc (init sc objs l0 (ofList progs)) sched) g = runSolo sc (l0 g) (progs[g].take (turns g sched)) := by
+  have hd' : ∀ g, disciplined (ofList progs g) = true := by
+    intro g
+    simp only [ofList, List.getD_eq_getElem?_getD]
+    cases h : progs[g]? with
+    | none => rfl
+    | some p => exact hd p (List.mem_of_getElem? h)
+  have := (noninterference sc hc objs l0 (ofList progs) hd' sched g).1
+  simpa [ofList, List.getD_eq_getElem?_getD, List.getElem?_eq_getElem hg] using this
+
+/-! ### Call sequences accepted by `disciplinedCalls` are disciplined programs -/
+
+theorem body_disciplined (a : L → A) (i : L → I) (ab : L → O → L) : ∀ (ts : List String) (st : Nat → VarSt),
+    st 0 = .ready → bodyOk ts = true → disciplinedFrom st (bodyToProgram a i ab ts) = true
+  | [], _, _, _ => rfl
+  | t :: ts, st, hst, h => by
+    simp only [bodyOk] at h
+    by_cases hp : (t == "Put") = true
+    · simp only [hp, if_true, List.isEmpty_iff] at h
+      subst h
+      simp [bodyToProgram, hp, disciplinedFrom, allowed, hst]
+    · simp only [hp, Bool.false_eq_true, if_false, Bool.and_eq_true] at h
+      by_cases hr : (t == "Reset") = true
+      · simp only [bodyToProgram, hp, hr, Bool.false_eq_true, if_false, if_true, disciplinedFrom, Bool.and_eq_true]
+        exact ⟨by simp [allowed, hst], body_disciplined a i ab ts _ (by simp [stStep]) h.2⟩
+      · simp only [bodyToProgram, hp, hr, Bool.false_eq_true, if_false, disciplinedFrom, Bool.and_eq_true]
+        exact ⟨by simp [allowed, hst], body_disciplined a i ab ts _ (by simpa [stStep] using hst) h.2⟩
+
+theorem head_disciplined (a : L → A) (i : L → I) (ab : L → O → L) (rest : List String) (h : bodyOk rest = true) :
+    disciplined (.get 0 0 :: .resetObj 0 a :: bodyToProgram a i ab rest) = true := by
+  simp only [disciplined, disciplinedFrom, allowed, stStep, Bool.true_and, Bool.and_eq_true]
+  exact ⟨by simp, body_disciplined a i ab rest _ (by simp) h⟩
+
+/-- what `decide` will establish for every extracted pool site implies the hypothesis of the theorems above for the
+    program the site stands for -/
+theorem disciplinedCalls_sound (a : L → A) (i : L → I) (ab : L → O → L) (cs : List String)
+    (h : disciplinedCalls cs = true) : disciplined (callsToProgram a i ab cs) = true := by
+  unfold disciplinedCalls at h
+  split at h
+  · exact head_disciplined a i ab _ h
+  · exact head_disciplined a i ab _ h
+  · exact head_disciplined a i ab _ h
+  · cases h
+
+/-- end to end on the running example: two disciplined goroutines sharing one pool, the second receiving the object the
+    first has used — each reads what it reads alone -/
+example : let s := run accum (init accum [(0, 99)] (fun _ => ()) (ofList [good, good])) [(0,0), (0,0), (0,0), (0,0), (1,0), (1,0), (1,0)]
+    (result s 0).2 = [6] ∧ (result s 1).2 = [6] ∧ (s.gs 0).vars 0 = some 0 ∧ (s.gs 1).vars 0 = some 0 ∧ s.pools 0 = [] := by
+  decide
 
 end SJ.Shared
